@@ -250,6 +250,10 @@ func TestC18ConnectSetup(t *testing.T) {
 		}
 		if rapid.Bool().Draw(rt, "pass") {
 			cfg.Password = []byte(rapid.SampledFrom([]string{"", "secret", "\x00\xff"}).Draw(rt, "password"))
+			if rapid.IntRange(0, 3).Draw(rt, "tokenPassword") == 0 {
+				// a token: longer than one length byte can tell
+				cfg.Password = bytes.Repeat([]byte("tok."), rapid.IntRange(64, 225).Draw(rt, "tokenQuads"))
+			}
 		}
 		if rapid.Bool().Draw(rt, "will") {
 			cfg.Will.Topic = "will/topic"
@@ -259,7 +263,7 @@ func TestC18ConnectSetup(t *testing.T) {
 			cfg.Will.ExactlyOnce = rapid.Bool().Draw(rt, "will2")
 		}
 		h := newH(rt, "C18", sim.Options{Config: cfg})
-		h.Act("config clean=%t keepAlive=%d user=%q pass=%q will=%t", cfg.CleanSession, cfg.KeepAlive, cfg.UserName, cfg.Password, cfg.Will.Message != nil)
+		h.Act("config clean=%t keepAlive=%d user=%q pass=%d bytes will=%t", cfg.CleanSession, cfg.KeepAlive, cfg.UserName, len(cfg.Password), cfg.Will.Message != nil)
 		failedThenOK, duringAttempt := 0, 0
 		failures := 0
 		nontrivial := false
